@@ -5,11 +5,13 @@
 package conformance
 
 import (
+	"bufio"
 	"bytes"
 	"encoding/gob"
 	"encoding/binary"
 	"io"
 	"math/rand"
+	"net/http/httputil"
 	"os"
 	"strconv"
 	"strings"
@@ -261,5 +263,27 @@ func TestGobKeepsEmptyMapsNonNil(t *testing.T) {
 	}
 	if out.Attributes == nil || out.Groups == nil {
 		t.Fatalf("empty maps came back nil: %v %v", out.Attributes == nil, out.Groups == nil)
+	}
+}
+
+// Assumed by the fix in LegacyPKT.ReadPacket (data first, error on the next call): the chunked
+// reader reports the end of the body again on every later read.
+func TestChunkedReaderErrorIsSticky(t *testing.T) {
+	for _, body := range []string{"5\r\nhello\r\n0\r\n\r\n", "5\r\nhello\r\n0\r\n", "5\r\nhel", "zz\r\n"} {
+		cr := httputil.NewChunkedReader(bufio.NewReader(strings.NewReader(body)))
+		buf := make([]byte, 4096)
+		var err error
+		for i := 0; i < 10 && err == nil; i++ {
+			_, err = cr.Read(buf)
+		}
+		if err == nil {
+			t.Fatalf("body %q: no error after 10 reads", body)
+		}
+		for i := 0; i < 3; i++ {
+			n, err2 := cr.Read(buf)
+			if n != 0 || err2 == nil {
+				t.Fatalf("body %q: read after error %v returned (%d, %v)", body, err, n, err2)
+			}
+		}
 	}
 }
